@@ -15,6 +15,17 @@ Fixpoint os_lookup (t : lookup_tbl) (ep path name : string) : option string :=
 Definition resolved (t : lookup_tbl) (penv : list (string * string)) (argv : list string) : option string :=
   os_lookup t (env_get penv "VERIF_FS_EPOCH") (env_get penv "PATH") (hd EmptyString argv).
 
+(* os/exec (Go 1.20+) refuses to start a command whose environment contains a NUL byte: "exec: environment variable
+   contains NUL" (measured on the unchanged tree; an empty name, '=' in a name, very long or non-UTF-8 entries are
+   handed to the child as they are) *)
+Fixpoint has_nul (s : string) : bool :=
+  match s with EmptyString => false | String c r => Nat.eqb (nat_of_ascii c) 0 || has_nul r end.
+Definition map_refused (emap : list (string * string)) : bool :=
+  existsb (fun kv => has_nul (fst kv) || has_nul (snd kv)) emap.
+(* the program that runs, if any: the env map is acceptable and the command word names one *)
+Definition startable (t : lookup_tbl) (penv emap : list (string * string)) (argv : list string) : option string :=
+  if map_refused emap then None else resolved t penv argv.
+
 Fixpoint parse_dec (acc : nat) (seen : bool) (s : string) : option nat :=
   match s with
   | EmptyString => if seen then Some acc else None
@@ -33,14 +44,14 @@ Definition exit_arg (a : string) : option nat :=
    0..255); with an argument --kill it kills itself with a signal after printing: the call's error is not an
    exit error, sh.ExitStatus says 1.  No program found / not startable: nothing printed, sh.ExitStatus of the
    error is 1. *)
-Definition argvchild_out (t : lookup_tbl) (penv : list (string * string)) (argv : list string) : string :=
-  match resolved t penv argv with
+Definition argvchild_out (t : lookup_tbl) (penv emap : list (string * string)) (argv : list string) : string :=
+  match startable t penv emap argv with
   | None => EmptyString
   | Some p => if existsb (String.eqb "--quiet") (tl argv) then EmptyString
               else String.append p (String.append ": " (String.append (String.concat " " (tl argv)) (String (ascii_of_nat 10) EmptyString)))
   end.
-Definition argvchild_exit (t : lookup_tbl) (penv : list (string * string)) (argv : list string) : nat :=
-  match resolved t penv argv with
+Definition argvchild_exit (t : lookup_tbl) (penv emap : list (string * string)) (argv : list string) : nat :=
+  match startable t penv emap argv with
   | None => 1
   | Some _ => if existsb (String.eqb "--kill") (tl argv) then 1
               else fold_left (fun acc a => match exit_arg a with Some n => n | None => acc end) (tl argv) 0
@@ -88,7 +99,9 @@ Definition obs_agree (t : lookup_tbl) (penv : list (string * string)) (o : op) (
   match fst m with
   | OSet | OMk => match i_argv i with [] => true | _ => false end
   | OCall argv out so st =>
-      list_eqb (list_eqb String.eqb) (match resolved t penv argv with Some _ => [argv] | None => [] end) (i_argv i) &&
+      list_eqb (list_eqb String.eqb)
+               (match startable t penv (match o with CallDirect f emap _ _ => if uses_map f then emap else [] | _ => [] end) argv with
+                | Some _ => [argv] | None => [] end) (i_argv i) &&
       option_eqb String.eqb out (i_out i) &&
       String.eqb so (i_stdout i) && Nat.eqb st (i_status i)
   | OBad => false
